@@ -1,7 +1,7 @@
 """C15 — produced metadata does not depend on the enabled crate features.
 One fingerprint binary (fixed corpus of built-in, derived and hand-written types) is built against /repo under
 every feature set; sections of encode(PortableRegistry) are compared byte for byte."""
-import concurrent.futures, itertools, json, os, subprocess, sys, time
+import concurrent.futures, itertools, json, os, re, subprocess, sys, time
 
 import builting, deriveg, progs
 
@@ -66,28 +66,36 @@ def feature_sets(thorough):
             ['std', 'serde', 'decode', 'bit-vec', 'schema', 'docs']]
 
 
-def corpus_sources():
-    defs = []
+def _stratum(d):
+    """(overlay kinds, shape of the definition): one representative per stratum, so that no overlay x shape combination
+    of the grammar is lost to subsampling"""
+    ok = tuple(re.sub(r'[0-9]+', 'N', o)[:40] for o in d.overlays)
+    sig = (d.kind, tuple(v.shape for v in d.variants)) if d.kind == 'enum' else (d.kind, d.shape)
+    return ok, sig
+
+
+def corpus_sources(thorough=False):
+    strata = {}
     seen = set()
     for d in deriveg.enc_definitions(False):
-        docsy = any('doc' in o or 'capture' in o for o in d.overlays)
-        if d.overlays and not docsy and len(defs) % 5: pass
-        if len(d.overlays) > 1 and not docsy: continue
+        if any(m.encoded_as for m in deriveg.all_members(d)): continue
+        if d.crate or d.via_macro or d.extra_derives: continue
         key = deriveg.def_src(d)
         if key in seen: continue
         seen.add(key)
-        if any(m.encoded_as for m in deriveg.all_members(d)): continue
-        if d.crate or d.via_macro or d.extra_derives: continue
-        defs.append(d)
-    docsy = [d for d in defs if any('doc' in o or 'capture' in o for o in d.overlays)]
-    plain = [d for d in defs if d not in docsy]
-    chosen = docsy[::2][:260] + plain[::4][:200]
+        strata.setdefault(_stratum(d), d)
+    chosen, two = [], 0
+    for (ok, _), d in strata.items():
+        if len(ok) >= 2 and not thorough:
+            two += 1
+            if two % 4: continue
+        chosen.append(d)
     for d in deriveg.gen_definitions(False)[::2]:
         chosen.append(d)
     return chosen
 
 
-def write_crate():
+def write_crate(thorough=False):
     os.makedirs(os.path.join(FP, 'src'), exist_ok=True)
     progs.write_if_changed(os.path.join(FP, 'Cargo.toml'), '''[package]
 name = "fp"
@@ -140,7 +148,7 @@ pub struct Inner<T>(pub T);
 pub struct InnerLt<'a>(pub &'a str);
 '''
     progs.write_if_changed(os.path.join(FP, 'src', 'prelude.rs'), prelude)
-    defs = corpus_sources()
+    defs = corpus_sources(thorough)
     mods, regs = [], []
     for i, d in enumerate(defs):
         d = d.clone()
@@ -158,7 +166,11 @@ pub struct InnerLt<'a>(pub &'a str);
         if d.constp:
             i2 = dict(d.inst); i2['N'] = 3
             extra.append(i2)
-        mods.append('pub mod %s {\n#![allow(dead_code, unused_imports, non_camel_case_types, non_snake_case)]\nuse crate::prelude::*;\n%s%s\n%s}\n' % (defid, open_mods, body, close_mods))
+        # a plain sibling in the same (innermost) module, described BEFORE the definition: anything the library remembers
+        # per module or per crate between two type_info() calls is exercised by it
+        sib = '#[derive(TypeInfo)]\npub struct Sibling(pub u8);\n'
+        mods.append('pub mod %s {\n#![allow(dead_code, unused_imports, non_camel_case_types, non_snake_case)]\nuse crate::prelude::*;\n%s%s%s\n%s}\n' % (defid, open_mods, sib, body, close_mods))
+        regs.append('    v.push(meta_type::<%s>());' % '::'.join([defid] + d.mods + ['Sibling']))
         regs.append('    v.push(meta_type::<%s>());' % path)
         for ex in extra:
             regs.append('    v.push(meta_type::<%s>());' % '::'.join([defid] + d.mods + [deriveg.inst_src(d, ex)]))
@@ -252,7 +264,7 @@ def run(pid, tier):
     r = progs.sh(['cargo', 'build', '--release', '--offline', '-q', '-p', 'vengine'], os.path.join(VERIF, 'harness'))
     if r.returncode != 0:
         print(r.stdout[-2000:]); print('MACHINERY-FAILURE: engine does not build'); return 2
-    ndefs, nplain, nbits = write_crate()
+    ndefs, nplain, nbits = write_crate(thorough)
     sets = feature_sets(thorough)
     results = {}
     notbuilt = {}
